@@ -7,6 +7,7 @@ package main
 import (
 	"archive/tar"
 	"context"
+	"errors"
 	"flag"
 	"fmt"
 	"io"
@@ -21,11 +22,13 @@ import (
 	"github.com/google/go-containerregistry/pkg/v1/mutate"
 	scalibr "github.com/google/osv-scalibr"
 	"github.com/google/osv-scalibr/artifact/image/layerscanning/image"
+	"github.com/google/osv-scalibr/detector"
 	"github.com/google/osv-scalibr/extractor"
 	"github.com/google/osv-scalibr/extractor/filesystem"
 	"github.com/google/osv-scalibr/extractor/standalone"
 	scalibrfs "github.com/google/osv-scalibr/fs"
 	"github.com/google/osv-scalibr/inventory"
+	"github.com/google/osv-scalibr/packageindex"
 	"github.com/google/osv-scalibr/plugin"
 	"github.com/google/osv-scalibr/purl"
 
@@ -56,9 +59,15 @@ type pkgex struct {
 	cancel   func()
 	sizes    *[]int // when set: the number of bytes every Extract call was handed
 	noPURL   bool   // ToPURL returns nil (extractors without a PURL for their packages, e.g. containerd's)
+	second   bool   // the second extractor reading the same files: another name, PURLs in another namespace
 }
 
-func (pkgex) Name() string                       { return "verif/pkgex" }
+func (e pkgex) Name() string {
+	if e.second {
+		return "verif/pkgex2"
+	}
+	return "verif/pkgex"
+}
 func (pkgex) Version() int                       { return 0 }
 func (pkgex) Requirements() *plugin.Capabilities { return &plugin.Capabilities{} }
 func (pkgex) FileRequired(api filesystem.FileAPI) bool {
@@ -88,6 +97,9 @@ func (e pkgex) Extract(ctx context.Context, in *filesystem.ScanInput) (inventory
 func (e pkgex) ToPURL(p *extractor.Package) *purl.PackageURL {
 	if e.noPURL {
 		return nil
+	}
+	if e.second {
+		return &purl.PackageURL{Type: purl.TypeGeneric, Namespace: "other", Name: p.Name, Version: p.Version}
 	}
 	return &purl.PackageURL{Type: purl.TypeGeneric, Name: p.Name, Version: p.Version}
 }
@@ -123,22 +135,59 @@ func hitByAncestorOp(l layer, f int) bool {
 
 // emitNoPURL: generate cases whose extractor returns a nil PURL. Off until the repair is in /repo: on the unrepaired
 // tree PopulateLayerDetails dereferences the nil PURL and ScanContainer panics (fix-c17-cov/2.diff).
+// emitTwoExtractors: generate cases in which two extractors read the same files. Off until the repair is in /repo: the
+// trace's cache is keyed by (location, layer) only, so the second extractor's packages are looked up among the first one's
+// (fix-imgb-j/1.diff).
+const emitTwoExtractors = false
+
 const emitNoPURL = true
 
 // saex: a standalone extractor that reports one package ("sa", with a location). It is not a filesystem extractor, so
 // the trace cannot attribute its package: LayerDetails stay unset.
-type saex struct{}
+type saex struct{ fail bool }
 
 func (saex) Name() string                       { return "verif/saex" }
 func (saex) Version() int                       { return 0 }
 func (saex) Requirements() *plugin.Capabilities { return &plugin.Capabilities{} }
-func (saex) Extract(ctx context.Context, in *standalone.ScanInput) (inventory.Inventory, error) {
+func (e saex) Extract(ctx context.Context, in *standalone.ScanInput) (inventory.Inventory, error) {
+	if e.fail {
+		return inventory.Inventory{}, errors.New("verif: standalone extractor fails")
+	}
 	return inventory.Inventory{Packages: []*extractor.Package{{Name: "sa", Version: "1", Locations: []string{"standalone"}}}}, nil
 }
 func (saex) ToPURL(p *extractor.Package) *purl.PackageURL {
 	return &purl.PackageURL{Type: purl.TypeGeneric, Name: p.Name, Version: p.Version}
 }
 func (saex) Ecosystem(p *extractor.Package) string { return "" }
+
+// fdet: a detector that makes the detection phase go wrong in one of the ways the engine knows.
+type fdet struct {
+	mode   byte
+	cancel func()
+}
+
+func (fdet) Name() string                       { return "verif/fdet" }
+func (fdet) Version() int                       { return 0 }
+func (fdet) Requirements() *plugin.Capabilities { return &plugin.Capabilities{} }
+func (fdet) RequiredExtractors() []string       { return nil }
+func (d fdet) Scan(ctx context.Context, root *scalibrfs.ScanRoot, px *packageindex.PackageIndex) ([]*detector.Finding, error) {
+	adv := func(title string) *detector.Advisory {
+		return &detector.Advisory{ID: &detector.AdvisoryID{Publisher: "VERIF", Reference: "V-1"}, Type: detector.TypeVulnerability,
+			Title: title, Description: "d", Recommendation: "r", Sev: &detector.Severity{Severity: detector.SeverityMedium}}
+	}
+	switch d.mode {
+	case 'i': // the same advisory ID with different content
+		return []*detector.Finding{{Adv: adv("one")}, {Adv: adv("another")}}, nil
+	case 'm': // a finding without an advisory
+		return []*detector.Finding{{Adv: nil}}, nil
+	case 'e':
+		return nil, errors.New("verif: detector fails")
+	case 'c':
+		d.cancel()
+		return nil, nil
+	}
+	return nil, nil
+}
 
 type layer struct {
 	empty bool
@@ -150,6 +199,11 @@ type tcase struct {
 	noPURL bool // mode token suffix p: the extractor has no PURL for its packages (identity = name and version)
 	nf     int
 	cancel int // 0 = never; k = the context is cancelled once the trace has made k re-extractions
+	// what goes wrong AFTER the (successful) extraction of the final view; attribution must not care:
+	// 0 nothing | i a detector reports inconsistent advisories | m a finding without an advisory | e a detector fails
+	// s the standalone extractor fails | c a detector cancels the context (written as cancel token c0)
+	after  byte
+	two    bool // mode letter x: a second extractor reads the same files (same packages, other PURLs)
 	layers []layer
 }
 
@@ -165,10 +219,18 @@ func (c tcase) line() string {
 	cs := "-"
 	if c.cancel > 0 {
 		cs = fmt.Sprintf("c%d", c.cancel)
+	} else if c.after == 'c' {
+		cs = "c0"
 	}
 	m := string(c.mode)
 	if c.noPURL {
 		m += "p"
+	}
+	if c.after != 0 && c.after != 'c' {
+		m += string(c.after)
+	}
+	if c.two {
+		m += "x"
 	}
 	return fmt.Sprintf("trace %s %d %s %s", m, c.nf, cs, hx.Join(ls, ","))
 }
@@ -182,11 +244,26 @@ func parseCase(s string) tcase {
 	if err != nil {
 		panic(err)
 	}
-	c := tcase{mode: t[1][0], nf: nf, noPURL: strings.HasSuffix(t[1], "p")}
+	c := tcase{mode: t[1][0], nf: nf}
+	for _, fl := range t[1][1:] {
+		switch fl {
+		case 'p':
+			c.noPURL = true
+		case 'i', 'm', 'e', 's':
+			c.after = byte(fl)
+		case 'x':
+			c.two = true
+		default:
+			panic("bad mode token: " + s)
+		}
+	}
 	if len(t) == 5 && t[3] != "-" {
 		c.cancel, err = strconv.Atoi(strings.TrimPrefix(t[3], "c"))
-		if err != nil || c.cancel < 1 {
+		if err != nil || c.cancel < 0 {
 			panic("bad cancel token: " + s)
+		}
+		if c.cancel == 0 {
+			c.after = 'c'
 		}
 	}
 	if ls := t[len(t)-1]; ls != "-" {
@@ -304,6 +381,9 @@ func run(c tcase) string {
 			}
 			if last[0] == 'w' || last[0] == 's' {
 				finalCalls++
+				if c.two {
+					finalCalls++
+				}
 			}
 		}
 		ctx, cancel := context.WithCancel(context.Background())
@@ -312,9 +392,18 @@ func run(c tcase) string {
 		if c.cancel > 0 {
 			cancelOn = finalCalls + c.cancel
 		}
+		var dets []detector.Detector
+		if c.after == 'i' || c.after == 'm' || c.after == 'e' || c.after == 'c' {
+			dets = []detector.Detector{fdet{mode: c.after, cancel: cancel}}
+		}
+		exs := []filesystem.Extractor{pkgex{calls: &calls, cancelOn: cancelOn, cancel: cancel, noPURL: c.noPURL}}
+		if c.two {
+			exs = append(exs, pkgex{calls: &calls, cancelOn: cancelOn, cancel: cancel, second: true})
+		}
 		res, err := scalibr.New().ScanContainer(ctx, im, &scalibr.ScanConfig{
-			FilesystemExtractors: []filesystem.Extractor{pkgex{calls: &calls, cancelOn: cancelOn, cancel: cancel, noPURL: c.noPURL}}, Capabilities: &plugin.Capabilities{},
-			StandaloneExtractors: []standalone.Extractor{saex{}},
+			FilesystemExtractors: exs, Capabilities: &plugin.Capabilities{},
+			StandaloneExtractors: []standalone.Extractor{saex{fail: c.after == 's'}},
+			Detectors:            dets,
 			// scan roots given by the caller are replaced by the image's final view
 			ScanRoots:    []*scalibrfs.ScanRoot{{Path: "/nonexistent/verif"}},
 			ReadSymlinks: true})
@@ -338,8 +427,12 @@ func run(c tcase) string {
 				continue
 			}
 			name := pkgID(p.Name, p.Version)
+			pfx := "f"
+			if p.Extractor != nil && p.Extractor.Name() == "verif/pkgex2" {
+				pfx = "g" // the second extractor's package of that file
+			}
 			if p.LayerDetails == nil {
-				toks = append(toks, fmt.Sprintf("f%dp%s@nil", f, name))
+				toks = append(toks, fmt.Sprintf("%s%dp%s@nil", pfx, f, name))
 				continue
 			}
 			ord := "?"
@@ -351,7 +444,7 @@ func run(c tcase) string {
 					ord = strconv.Itoa(i)
 				}
 			}
-			toks = append(toks, fmt.Sprintf("f%dp%s@%d:%s:%s", f, name, p.LayerDetails.Index, ord, hx.Hex(p.LayerDetails.Command)))
+			toks = append(toks, fmt.Sprintf("%s%dp%s@%d:%s:%s", pfx, f, name, p.LayerDetails.Index, ord, hx.Hex(p.LayerDetails.Command)))
 		}
 		sort.Strings(toks)
 		return fmt.Sprintf("n=%d pk=%s", len(cls), hx.Join(toks, ","))
@@ -418,6 +511,12 @@ func randCase(r *rand.Rand) tcase {
 	}
 	if emitNoPURL && r.Intn(8) == 0 {
 		c.noPURL = true
+	}
+	if c.cancel == 0 && r.Intn(5) == 0 {
+		c.after = "imesc"[r.Intn(5)]
+	}
+	if emitTwoExtractors && r.Intn(6) == 0 {
+		c.two = true
 	}
 	linky := r.Intn(4) == 0 // a quarter of the cases replace locations by symlinks now and then
 	deep := r.Intn(3) == 0  // a third delete / replace ancestor directories now and then
